@@ -163,7 +163,8 @@ namespace GeographicLib {
   }
 
   int Utility::lookup(const char* s, char c) {
-    const char* p = strchr(s, toupper(c));
+    // strchr matches the terminating NUL; a NUL is never a valid character
+    const char* p = c ? strchr(s, toupper(c)) : NULL;
     return p != NULL ? int(p - s) : -1;
   }
 
